@@ -133,11 +133,19 @@ def at_loop_head(self, st, fr):
                 pleaf = []
             if pleaf != [prev]:
                 continue
-            if summarise(self, st, fr, key, l, path, kind, g, fld):
+            if summarise(self, st, fr, key, l, path, kind, g, fld, prev):
                 return
 
 
-def probe(self, st, fr, l, path, kind, k, fld, with_succ=True, companions=()):
+def _pigeon(self, s, tag, like):
+    """The value of an iteration counter at a generic loop head of a walk along an acyclic link (J3): the v nodes passed so far and the node under the cursor
+    are v + 1 distinct slots of the arena, so v < len - like the index of a slot (pigeonhole; no slot is pushed during a walk).  `cmp` knows ('cnt', ..) < len0."""
+    sym = ("cnt", tag)
+    s.bounds[sym] = (0, ISIZE_MAX - 1)
+    return VInt(Lin(0, sym, 1), like.bits, like.signed)
+
+
+def probe(self, st, fr, l, path, kind, k, fld, with_succ=True, companions=(), lags=(), counters=()):
     """One iteration with the cursor leaf = k on a scratch copy.  Returns (scratch, events, successor individual or None) or None."""
     from .interp import LoopHeadReached
     sc = st.copy()
@@ -154,6 +162,13 @@ def probe(self, st, fr, l, path, kind, k, fld, with_succ=True, companions=()):
     f2.locals[l] = self.update(sc, f2.locals[l], path, idv if kind == "id" else some(idv))
     for c_ in companions:
         f2.locals[c_] = VRef(("node", k), (), False)
+    for c_ in lags:
+        f2.locals[c_] = VOpaque("lagging cursor")      # the iteration must not depend on the previously visited node (any use of it is undecided)
+    cstart = {}
+    for c_ in counters:
+        f2.locals[c_] = _pigeon(self, sc, ("probe", c_), f2.locals[c_])
+        cstart[c_] = f2.locals[c_]
+    sc.meta["probe_counters"] = cstart
     sc.meta["stop_at"] = (f2.uid, f2.bb)
     sc.meta["stop_armed"] = False
     sc.meta["in_probe"] = True
@@ -177,7 +192,7 @@ def probe(self, st, fr, l, path, kind, k, fld, with_succ=True, companions=()):
     return sc, sc.events[nev:], g2
 
 
-def _iteration_shape(self, st, fr, l, path, kind, k, fld, r, companions=()):
+def _iteration_shape(self, st, fr, l, path, kind, k, fld, r, companions=(), lags=(), counters=()):
     """Check that a probed iteration only advanced the cursor along fld; return its writes {field: value} on k (or None)."""
     sc, events, g2 = r
     f2 = sc.frames[-1]
@@ -203,6 +218,17 @@ def _iteration_shape(self, st, fr, l, path, kind, k, fld, r, companions=()):
             if isinstance(b, VRef) and not b.path and b.root == ("node", succ2):
                 continue
             return None
+        if k2 in counters:
+            # an iteration counter: exactly one more than at the head
+            c0 = sc.meta.get("probe_counters", {}).get(k2)
+            if c0 is not None and isinstance(b, VInt) and self.add_terms(b.t, c0.t, -1) == Lin(1):
+                continue
+            return None
+        if k2 in lags:
+            # a NodeId that remembers the node visited last: after the iteration it names the cursor's node
+            if isinstance(b, VStruct) and b.adt == NODEID and sc.node_of_id(b) == k:
+                continue
+            return None
         if k2 == l:
             # everything but the cursor leaf must be unchanged
             try:
@@ -214,6 +240,8 @@ def _iteration_shape(self, st, fr, l, path, kind, k, fld, r, companions=()):
                 return None
             continue
         if a is None or b is None or vkey(a) != vkey(b):
+            if _dead_scalar(self, sc, f2, k2, a) and _dead_scalar(self, sc, f2, k2, b):
+                continue        # a scalar temporary (e.g. the pair of a checked addition) that is dead at the head and that nothing refers to
             return None
     writes = {}
     for e in events:
@@ -229,14 +257,72 @@ def _iteration_shape(self, st, fr, l, path, kind, k, fld, r, companions=()):
     return writes
 
 
-def summarise(self, st, fr, key, l, path, kind, g, fld):
+def _dead_scalar(self, sc, f2, l2, v):
+    """l2 holds a plain scalar (or a tuple of scalars), is not live at the loop head f2.bb and no local of the frame holds a reference into it."""
+    from .ppmodels import live_in
+
+    def scalar(x):
+        return x is None or isinstance(x, (VInt, VBool)) or (isinstance(x, VTuple) and all(scalar(y) for y in x.items))
+    if not scalar(v):
+        return False
+    try:
+        if l2 in live_in(self, f2.fnkey)[f2.bb]:
+            return False
+    except (KeyError, IndexError):
+        return False
+    root = ("local", f2.uid, l2)
+
+    def refers(x, d=0):
+        if isinstance(x, VRef):
+            return x.root == root
+        if d > 4:
+            return True
+        if isinstance(x, VStruct):
+            return any(refers(y, d + 1) for _, y in x.fields)
+        if isinstance(x, VEnum):
+            return any(refers(y, d + 1) for _, y in x.fields)
+        if isinstance(x, VTuple):
+            return any(refers(y, d + 1) for y in x.items)
+        return False
+    return not any(refers(x) for k3, x in f2.locals.items() if k3 != l2)
+
+
+def summarise(self, st, fr, key, l, path, kind, g, fld, prev=None):
     companions = tuple(k2 for k2, v in fr.locals.items() if k2 != l and isinstance(v, VRef) and not v.path and v.root == ("node", g)) if kind == "id" else ()
-    r = probe(self, st, fr, l, path, kind, g, fld, companions=companions)
+    # lagging cursors: plain NodeId locals that name the node visited in the previous iteration and name the cursor's node after this one
+    lags = ()
+    counters = ()
+    done = st.meta.get("lh", {}).get(key, 1) - 1          # iterations completed
+    ccands = [k2 for k2, v in fr.locals.items() if k2 != l and isinstance(v, VInt) and v.t.is_const() and v.t.c == done and done >= 1]
+    if ccands:
+        r0 = probe(self, st, fr, l, path, kind, g, fld, companions=companions)
+        if r0 is None:
+            return False
+        f0 = r0[0].frames[-1]
+        counters = tuple(k2 for k2 in ccands if isinstance(f0.locals.get(k2), VInt) and f0.locals[k2].t == Lin(done + 1))
+    if prev is not None and kind == "opt":
+        cands = []
+        for k2, v in fr.locals.items():
+            if k2 != l and isinstance(v, VStruct) and v.adt == NODEID:
+                try:
+                    if st.node_of_id(v) == prev:
+                        cands.append(k2)
+                except (Undecided, Fork):
+                    pass
+        if cands:
+            r0 = probe(self, st, fr, l, path, kind, g, fld, companions=companions, counters=counters)
+            if r0 is None:
+                return False
+            f0 = r0[0].frames[-1]
+            lags = tuple(k2 for k2 in cands if isinstance(f0.locals.get(k2), VStruct) and f0.locals[k2].adt == NODEID and r0[0].node_of_id(f0.locals[k2]) == g)
+    r = probe(self, st, fr, l, path, kind, g, fld, companions=companions, lags=lags, counters=counters)
     if r is None:
         return False
-    writes = _iteration_shape(self, st, fr, l, path, kind, g, fld, r, companions)
+    writes = _iteration_shape(self, st, fr, l, path, kind, g, fld, r, companions, lags, counters)
     if writes is None:
         return False
+    if lags and not writes:
+        return False        # a lagging cursor is summarised only for the walk over all children of a known parent (it ends at that parent's last child)
     first_locals = st.meta.get("lh_first", {}).get(key, {})
     try:
         starts = [n for (p2, k2, n) in _leaves(st, first_locals.get(l)) if p2 == path] if first_locals.get(l) is not None else []
@@ -283,8 +369,8 @@ def summarise(self, st, fr, key, l, path, kind, g, fld):
                 pk = st.h0_link(k, "parent")
             if pk != x:
                 continue
-            rk = probe(self, st, fr, l, path, kind, k, fld, companions=companions)
-            wk = _iteration_shape(self, st, fr, l, path, kind, k, fld, rk, companions) if rk is not None else None
+            rk = probe(self, st, fr, l, path, kind, k, fld, companions=companions, lags=lags, counters=counters)
+            wk = _iteration_shape(self, st, fr, l, path, kind, k, fld, rk, companions, lags, counters) if rk is not None else None
             if wk is None:
                 # the named child may end the chain (exit inside the iteration): compare its effect without requiring a return to the head
                 wk = _effect_only(self, st, fr, l, path, kind, k)
@@ -294,8 +380,21 @@ def summarise(self, st, fr, key, l, path, kind, g, fld):
         qw = QWrite(st.meta["wseq"], "parent", x, writes, "%s loop at bb%d over children of %s" % (fr.fnkey.split("::")[-1], fr.bb, x))
     luid = fr.uid
     fnkey = fr.fnkey
+    lag_end = None
+    if lags:
+        if st.h0_link(x, "last_child") == "unk":
+            self.force(st, VLazy(x, "last_child"))       # decide (forks): the walk over the children of x ends at x's last child (J2)
+        lag_end = st.h0_link(x, "last_child")
+        if lag_end in ("unk", None):
+            return False
+
+    hv = st.meta.get("lh", {}).get(key, 0)
 
     def common(s):
+        for c_ in counters:
+            for f_ in s.frames:
+                if f_.uid == luid:
+                    f_.locals[c_] = _pigeon(self, s, (luid, fr.bb, hv, c_), f_.locals[c_])
         if qw is not None:
             s.qwrites.append(qw)
             s.meta["wseq"] = max(s.meta.get("wseq", 0), qw.seq)
@@ -328,8 +427,8 @@ def summarise(self, st, fr, key, l, path, kind, g, fld):
         for k in named:
             if fld == "parent" and st.anc_query(k, g) is False:
                 continue
-            rk = probe(self, st, fr, l, path, kind, k, fld, companions=companions)
-            wk = _iteration_shape(self, st, fr, l, path, kind, k, fld, rk, companions) if rk is not None else None
+            rk = probe(self, st, fr, l, path, kind, k, fld, companions=companions, lags=lags, counters=counters)
+            wk = _iteration_shape(self, st, fr, l, path, kind, k, fld, rk, companions, lags, counters) if rk is not None else None
             if wk is None or wk:
                 interesting.append(k)
         named = interesting
@@ -342,6 +441,10 @@ def summarise(self, st, fr, key, l, path, kind, g, fld):
                     if s.anc.get((k, g)) is None:
                         s.anc[(k, g)] = False
             _set_leaf(self, s, luid, l, path, none())
+            for c_ in lags:
+                for f_ in s.frames:
+                    if f_.uid == luid:
+                        f_.locals[c_] = s.id_of(lag_end)
         if writes:
             # every remaining chain member (named ones were verified) receives the effect; the walk ends
             opts.append(("summarise %s loop over children of %s" % (fnkey.split("::")[-1], x), exhaust))
